@@ -16,6 +16,7 @@ import (
 
 // doCause triggers the end of the connection.
 func (r *result) doCause(ctx context.Context, wg *sync.WaitGroup) {
+	defer close(r.causeDone)
 	c := &r.c
 	w := r.w
 	e := r.ep(c.By)
@@ -71,7 +72,7 @@ func (r *result) doCause(ctx context.Context, wg *sync.WaitGroup) {
 		if c.By == "c" {
 			from, to = sim.ServerAddr, sim.ClientAddr
 		}
-		r.forgeRec = len(w.Router.Log)
+		r.forgeRec = -2 // resolved from the log snapshot (record with the note "forged:...")
 		w.Router.Inject(simDir(dirTo(c.By)), from, to, data, "forged:"+name)
 	case "idle":
 		// nothing to do: the network is blacked out from tCause on, or the connection is simply left alone
@@ -88,14 +89,9 @@ func (r *result) replay(n int) {
 		return
 	}
 	time.Sleep(20 * time.Microsecond)
-	var old []byte
-	for i := len(w.Router.Log) - 1; i >= 0; i-- {
-		rec := w.Router.Log[i]
-		if rec.Dir == dirTo(to) && !rec.Forged && !rec.Mutated && len(rec.Data) > 0 && len(rec.Class) > 0 && rec.Class[0] == "1rtt" {
-			old = rec.Data
-			break
-		}
-	}
+	r.tap.mu.Lock()
+	old := r.tap.lastData[dirTo(to)]
+	r.tap.mu.Unlock()
 	if old == nil {
 		return
 	}
@@ -184,17 +180,9 @@ func forgeFrames(victim string, variant int) (payload []byte, code uint64, name 
 func (r *result) trickle(every time.Duration) {
 	w := r.w
 	time.Sleep(r.rtt/2 + time.Millisecond)
-	var first *sim.Packet
-	for _, rec := range w.Router.Log {
-		if rec.Dir != "c2s" || rec.Forged {
-			continue
-		}
-		for _, p := range pktsOf(rec) {
-			if p.Kind == "initial" && first == nil {
-				first = p
-			}
-		}
-	}
+	r.tap.mu.Lock()
+	first := r.tap.firstInitial
+	r.tap.mu.Unlock()
 	if first == nil {
 		r.harness = "trickle: no client Initial observed"
 		return
@@ -220,27 +208,12 @@ func (r *result) trickle(every time.Duration) {
 
 func (r *result) forge(victim string, variant int) (data []byte, code uint64, name string, skip string) {
 	w := r.w
-	dir := simDir(dirTo(victim))
-	var last *sim.Packet
-	var maxPN uint64
-	for _, rec := range w.Router.Log {
-		if rec.Dir != dirTo(victim) || rec.Forged {
-			continue
-		}
-		pkts, _ := rec.Pkts.([]*sim.Packet)
-		for _, p := range pkts {
-			if p.Kind == "1rtt" && p.Err == "" {
-				if p.KeyPhase || p.KeyGen != 0 {
-					return nil, 0, "", "key update seen"
-				}
-				last = p
-				if p.PN > maxPN {
-					maxPN = p.PN
-				}
-			}
-		}
+	r.tap.mu.Lock()
+	last, maxPN, ku := r.tap.last1rtt[dirTo(victim)], r.tap.maxPN[dirTo(victim)], r.tap.keyUpdate[dirTo(victim)]
+	r.tap.mu.Unlock()
+	if ku {
+		return nil, 0, "", "key update seen"
 	}
-	_ = dir
 	if last == nil {
 		return nil, 0, "", "no 1-RTT packet towards the victim observed"
 	}
@@ -288,4 +261,56 @@ func (r *result) forge(victim string, variant int) (data []byte, code uint64, na
 	pn := maxPN + 3
 	hdr := refwire.AppendShortHeader(nil, last.DCID, pn&0xffffffff, 4, false, false)
 	return refcrypto.Protect(keys, hdr, pnOff, 4, pn, payload), code, name, ""
+}
+
+// tapState collects, under the router's lock, what the scenario needs from the traffic while it is running (the
+// router's log itself may only be read through Router.Trace).
+type tapState struct {
+	mu           sync.Mutex
+	last1rtt     map[string]*sim.Packet
+	maxPN        map[string]uint64
+	keyUpdate    map[string]bool
+	lastData     map[string][]byte // last unmodified datagram consisting of 1-RTT packets, per direction
+	firstInitial *sim.Packet
+	ccData       map[int][]byte // datagrams carrying CONNECTION_CLOSE, by sequence number
+}
+
+func newTap() *tapState {
+	return &tapState{last1rtt: map[string]*sim.Packet{}, maxPN: map[string]uint64{}, keyUpdate: map[string]bool{}, lastData: map[string][]byte{}, ccData: map[int][]byte{}}
+}
+
+func (t *tapState) tap(dir sim.Dir, rec *sim.Record) {
+	t.mu.Lock()
+	defer t.mu.Unlock()
+	d := rec.Dir
+	all1rtt := true
+	for _, p := range pktsOf(rec) {
+		switch p.Kind {
+		case "1rtt":
+			if p.Err == "" {
+				if p.KeyPhase || p.KeyGen != 0 {
+					t.keyUpdate[d] = true
+				}
+				t.last1rtt[d] = p
+				if p.PN > t.maxPN[d] {
+					t.maxPN[d] = p.PN
+				}
+			}
+		case "initial":
+			if d == "c2s" && t.firstInitial == nil {
+				t.firstInitial = p
+			}
+			all1rtt = false
+		default:
+			all1rtt = false
+		}
+		for _, n := range p.Names {
+			if n == refwire.NameConnectionClose {
+				t.ccData[rec.Seq] = rec.Data
+			}
+		}
+	}
+	if all1rtt && len(rec.Data) > 0 && len(pktsOf(rec)) > 0 {
+		t.lastData[d] = rec.Data
+	}
 }
